@@ -719,7 +719,13 @@ pub fn generate(rng: &mut Rng, tier: Tier, frames: bool) -> Scn {
             18 | 19 if io_stores => {
                 // any I/O register except the timer's own (a running timer would raise requests nobody asked for)
                 let addr = loop {
-                    let a = if rng.chance(1, 2) { 0xfee000 + rng.below(0x100) as u32 } else { 0xffff20 + rng.below(0xca) as u32 };
+                    // a third of them go to the interrupt controller's and system control's own registers
+                    // (SYSCR, ISCR, IER, ISR, IPRA, IPRB) - nothing the property lets them change about delivery
+                    let a = match rng.below(6) {
+                        0 | 1 => *rng.pick(&[0xfee012u32, 0xfee014, 0xfee015, 0xfee016, 0xfee018, 0xfee019]),
+                        2 | 3 => 0xfee000 + rng.below(0x100) as u32,
+                        _ => 0xffff20 + rng.below(0xca) as u32,
+                    };
                     if !(0xffff80..=0xffff89).contains(&a) {
                         break a;
                     }
